@@ -44,6 +44,7 @@ ID = 'C16'
 LEAN_MODULES = ['Py65.Props.C16']
 NAMESPACES = ['Py65.Props.C16']
 LEVEL = 'proof'
+USES_PROLOGUE = True
 USES_GEN = False
 EXPECTED_THEOREMS = [
     'Py65.Props.C16.flat_memory', 'Py65.Props.C16.fill_exact', 'Py65.Props.C16.fill_exact_aliasing', 'Py65.Props.C16.fill_rejects', 'Py65.Props.C16.load_exact',
@@ -179,7 +180,12 @@ class RealMon(object):
         os.close(w)                    # EOF: getch_noblock returns '' at once, getc answers 0
         self.stdin = os.fdopen(r, 'r')
         self.out = io.StringIO()
-        self.mon = Monitor(argv=['py65mon', '-m', dev], stdin=self.stdin, stdout=self.out)
+        start_dev, prologue = common.history_prologue(dev)
+        self.mon = Monitor(argv=['py65mon', '-m', start_dev], stdin=self.stdin, stdout=self.out)
+        self.prologue = ["Monitor(argv=['py65mon', '-m', %r])" % start_dev] + prologue
+        for line in prologue:          # session history that must not matter (common.history_prologue)
+            self.mon.onecmd(line)
+        self.mon.lastcmd = ''
         self.dev, self.P = dev, DEVS[dev]
         self.subj = self.mon._mpu.memory._subject
         assert len(self.subj) == self.P['phys']
